@@ -142,6 +142,8 @@ def check_case(ctx, case):
 
 
 def cluster_centers(name, d, n):
+    # contract: the back-end is applied to the *sorted* distances (order-free, D16/D17)
+    d = np.sort(d)
     from sklearn.cluster import KMeans, AgglomerativeClustering
     with warnings.catch_warnings():
         warnings.simplefilter('ignore')
